@@ -244,7 +244,7 @@ def run(c, a):
                     continue
                 for val in ("ns-allowed", "ns-forbidden", "ns-remote-ok", "ns-remote-bad"):
                     for bypass in (False, True):
-                        for variant in (("", "tail") if "events" in o["path"] else ("",)) + (("json",) if o["inblob"] else ()) + ("fillbad",):
+                        for variant in (("", "tail") if "events" in o["path"] else ("",)) + (("json", "dirty2") if o["inblob"] else ()) + ("fillbad",):
                             d = dict(o)
                             d.update(mode="acl", value=val, bypass=bypass, variant=variant, id=len(acl) + 1)
                             acl.append(d)
